@@ -10,6 +10,11 @@ class Concretizer:
         s.ex = ex; s.m = model
 
     def c(s, v):
+        if is_sym(v) and z3.is_fp(v):
+            prov = s.ex.float_defs.get(v.get_id())
+            if prov is not None:
+                t = ('-' if prov.neg else '') + bytes(s.c(d) for d in prov.ip).decode() + ('.' + bytes(s.c(d) for d in prov.fp).decode() if prov.fp else '')
+                return float(t)
         if is_sym(v):
             if s.m is None: raise Unsupported('symbolic value without a model')
             return conc_value(s.m.eval(v, model_completion=True))
